@@ -171,10 +171,10 @@ func (o *OvsdbServer) GetSchema(client *rpc2.Client, args []interface{}, reply *
 	}
 	o.modelsMutex.RLock()
 	model, ok := o.models[db]
+	o.modelsMutex.RUnlock()
 	if !ok {
 		return fmt.Errorf("database %s does not exist", db)
 	}
-	o.modelsMutex.RUnlock()
 	*reply = model.Schema
 	return nil
 }
